@@ -17,7 +17,7 @@ let () =
   try while true do
     let line = input_line stdin in
     match toks line with
-    | "PRE" :: k :: _ -> pre := k
+    | "PRE" :: k :: _ -> pre := k; id := ""
     | "FLAG" :: i :: d :: _ :: _ :: "|" :: h ->      (* model: the flag after the request history is the last request *)
         Printf.printf "MFLAG %s %s %d\n" !pre i (if disabled_after (d = "1") (List.map (fun x -> x = "1") h) then 1 else 0)
     | "CASE" :: k :: _ -> id := k; mrows := []; grows := []; mask := []; rhs := []; b := []; udot := []; lam := []; u := []
@@ -28,6 +28,6 @@ let () =
     | "UDOT" :: r -> udot := List.map fl r
     | "LAMFULL" :: r -> lam := List.map fl r
     | "U" :: r -> u := List.map fl r
-    | "END" :: _ -> finish ()
+    | "END" :: _ -> if !id <> "" then finish (); id := ""
     | _ -> ()
   done with End_of_file -> ()
